@@ -1972,6 +1972,509 @@ def run_custom(ctx):
 
 
 # ---------------------------------------------------------------------------
+# WEIGHTOBJ stream (round 5): the weighting OBJECTS themselves — npy_weighted_inner/norm/dist
+# factories, ==/equiv/__hash__/is_valid of Const/Array/Matrix/Custom weightings of tensor and
+# product spaces, MatrixWeighting (validation, is_valid, matrix_decomp, matrix power, sparse),
+# is_weighted, space ==/hash, zero().  Oracle: `equiv` means "yields the same result for any
+# input" (docstring): it must coincide with equality of the effective weight MATRICES computed
+# here in Fractions, be symmetric, be implied by ==, and == must imply equal hashes.
+
+WEIGHTOBJ_STRATA = (
+    ['weightobj/factory/{}/{}'.format(f, k) for f in ('inner', 'norm', 'dist')
+     for k in ('const', 'array')] +
+    ['weightobj/equiv/{}/{}-{}'.format(sp, a, b) for sp in ('tensor',)
+     for a in ('const', 'array', 'matrix', 'spmatrix', 'custom')
+     for b in ('const', 'array', 'matrix', 'spmatrix', 'custom')] +
+    ['weightobj/equiv/pspace/{}-{}'.format(a, b) for a in ('const', 'array', 'custom')
+     for b in ('const', 'array', 'custom')] +
+    ['weightobj/matrix/' + t for t in (
+        'is_valid/pd', 'is_valid/indefinite', 'is_valid/nonhermitian', 'is_valid/cached-eigval',
+        'decomp', 'decomp/cached', 'matpow/precomp', 'matpow/precomp-cached-decomp',
+        'sparse/notimpl', 'inner-norm-dist/notimpl', 'reject/object', 'reject/ndim',
+        'reject/nonsquare', 'reject/sparse-exponent')] +
+    ['weightobj/array/is_valid/' + t for t in ('positive', 'nonpositive')] +
+    ['weightobj/is_weighted/' + t for t in ('tensor', 'pspace')] +
+    ['weightobj/space-eq-hash/' + t for t in ('tensor', 'pspace', 'discr')] +
+    ['weightobj/zero/' + t for t in ('tensor', 'pspace', 'discr')] +
+    ['weightobj/partition/cell_sizes_vecs', 'weightobj/partition/nodes_on_bdry'])
+
+
+def run_weightobj(ctx, wseed=None):
+    import odl
+    import scipy.sparse
+    from odl.space import npy_tensors as nt, pspace as psp
+    from odl.space.weighting import MatrixWeighting
+    if wseed is None:
+        wseed = ctx.rng.getrandbits(32)
+    rng = random.Random(wseed)
+    problems = []
+
+    def bad(key, detail):
+        problems.append((key, detail))
+        ctx.violation('weightobj ' + key, str(detail)[:400], {'weightobj': {'seed': wseed,
+                                                                             'key': key}})
+
+    def dyl(n, lo=-8, hi=8):
+        return [rng.randint(lo, hi) / 4.0 for _ in range(n)]
+
+    def wl(n):
+        return [rng.choice([0.5, 1.0, 2.0, 3.0, 0.25]) for _ in range(n)]
+
+    # ---- 1. factories == the space's own inner/norm/dist == Fractions reference
+    for kind in ('const', 'array'):
+        for p in (2.0, 1.0, INF, 2.5):
+            n = rng.randint(2, 6)
+            w = rng.choice([0.5, 2.0, 3.0]) if kind == 'const' else wl(n)
+            X, Y = dyl(n), dyl(n)
+            o = outcome(lambda: odl.rn(n, weighting=w, exponent=p))
+            if o[0] != 'ok':
+                bad('factory {} :: space'.format(kind), o)
+                continue
+            sp = o[1]
+            x, y = sp.element(X), sp.element(Y)
+            if p == 2.0:
+                r = outcome(lambda: (nt.npy_weighted_inner(w)(x, y), sp.inner(x, y)))
+                wf = [Fraction(w)] * n if kind == 'const' else [Fraction(t) for t in w]
+                ref = sum(a * Fraction(u) * Fraction(v) for a, u, v in zip(wf, X, Y))
+                if r[0] != 'ok' or Fraction(float(r[1][0])) != ref or r[1][0] != r[1][1]:
+                    bad('factory {} :: npy_weighted_inner'.format(kind), (r, float(ref)))
+                ctx.hit('weightobj/factory/inner/' + kind)
+            r = outcome(lambda: (nt.npy_weighted_norm(w, exponent=p)(x), sp.norm(x),
+                                 nt.npy_weighted_dist(w, exponent=p)(x, y), sp.dist(x, y),
+                                 (x - y).norm()))
+            if r[0] != 'ok' or r[1][0] != r[1][1] or r[1][2] != r[1][3] or \
+                    not close(float(r[1][2]), float(r[1][4])):
+                bad('factory {} p={} :: npy_weighted_norm/dist'.format(kind, pw(p)), r)
+            ctx.hit('weightobj/factory/norm/' + kind)
+            ctx.hit('weightobj/factory/dist/' + kind)
+
+    # ---- 2. == / equiv / hash against effective weight matrices
+    def pairs(sp_kind, objs):
+        """objs: (kind, object, exponent, effective matrix as tuple of tuples | callable id)"""
+        for ku, u, pu, mu in objs:
+            for kv, v, pv, mv in objs:
+                tag = '{} {}-{}'.format(sp_kind, ku, kv)
+                ctx.hit('weightobj/equiv/{}/{}-{}'.format(sp_kind, ku, kv))
+                rh = outcome(lambda: (hash(u), hash(v)))
+                if rh[0] != 'ok':
+                    bad('equiv {} :: hash raises {}'.format(tag, rh[0][4:]), rh)
+                r = outcome(lambda: (bool(u.equiv(v)), bool(u == v)))
+                if r[0] != 'ok':
+                    bad('equiv {} :: equiv raises {}'.format(tag, r[0][4:]), r)
+                    continue
+                r2 = outcome(lambda: bool(v.equiv(u)))
+                if rh[0] != 'ok' or r2[0] != 'ok':
+                    continue        # reported under the pair in the other order / above
+                r = ('ok', r[1][:1] + (r2[1],) + r[1][1:] + rh[1])
+                e, e2, eq_, hu, hv = r[1]
+                want = (pu == pv) and mu == mv
+                if e != want:
+                    bad('equiv {} :: wrong'.format(tag),
+                        'equiv={} but effective weights/exponents equal={} ({} p={} vs {} p={})'
+                        .format(e, want, mu, pu, mv, pv))
+                if e != e2:
+                    bad('equiv {} :: not symmetric'.format(tag), (e, e2))
+                if eq_ and not e:
+                    bad('equiv {} :: == without equiv'.format(tag), r)
+                if eq_ and hu != hv:
+                    bad('equiv {} :: == with different hashes'.format(tag), r)
+                if u is v and not eq_:
+                    bad('equiv {} :: object != itself'.format(tag), r)
+
+    def dm(diag):
+        n = len(diag)
+        return tuple(tuple(Fraction(diag[i]) if i == j else Fraction(0) for j in range(n))
+                     for i in range(n))
+    n = rng.randint(2, 4)
+    c = rng.choice([0.5, 2.0, 3.0])
+    arr = wl(n)
+    if all(t == arr[0] for t in arr):
+        arr[0] = arr[0] * 2
+    arr_obj = np.asarray(arr)
+    nd = [[2.0 if i == j else (0.5 if abs(i - j) == 1 else 0.0) for j in range(n)]
+          for i in range(n)]
+    ndm = tuple(tuple(Fraction(t) for t in row) for row in nd)
+    f1 = lambda u, v: 0.0  # noqa
+    f2 = lambda u, v: 1.0  # noqa
+    p2 = rng.choice([1.0, INF, 3.0])
+    objs = [('const', nt.NumpyTensorSpaceConstWeighting(c), 2.0, dm([c] * n)),
+            ('const', nt.NumpyTensorSpaceConstWeighting(c), 2.0, dm([c] * n)),
+            ('const', nt.NumpyTensorSpaceConstWeighting(c * 2), 2.0, dm([c * 2] * n)),
+            ('const', nt.NumpyTensorSpaceConstWeighting(c, exponent=p2), p2, dm([c] * n)),
+            ('array', nt.NumpyTensorSpaceArrayWeighting(np.full(n, c)), 2.0, dm([c] * n)),
+            ('array', nt.NumpyTensorSpaceArrayWeighting(arr_obj), 2.0, dm(arr)),
+            ('array', nt.NumpyTensorSpaceArrayWeighting(arr_obj), 2.0, dm(arr)),
+            ('array', nt.NumpyTensorSpaceArrayWeighting(np.array([c] + [2 * c] * (n - 1))), 2.0,
+             dm([c] + [2 * c] * (n - 1))),
+            ('array', nt.NumpyTensorSpaceArrayWeighting(np.array(arr)), 2.0, dm(arr)),
+            ('array', nt.NumpyTensorSpaceArrayWeighting(np.array(arr), exponent=p2), p2, dm(arr)),
+            ('matrix', MatrixWeighting(np.diag([c] * n), impl='numpy'), 2.0, dm([c] * n)),
+            ('matrix', MatrixWeighting(np.diag(arr), impl='numpy'), 2.0, dm(arr)),
+            ('matrix', MatrixWeighting(np.array(nd), impl='numpy'), 2.0, ndm),
+            ('matrix', MatrixWeighting(np.array(nd), impl='numpy'), 2.0, ndm),
+            ('matrix', MatrixWeighting(np.diag(arr), impl='numpy', exponent=1.0), 1.0, dm(arr)),
+            ('spmatrix', MatrixWeighting(scipy.sparse.diags([arr], [0]).tocsr(), impl='numpy'),
+             2.0, dm(arr)),
+            ('spmatrix', MatrixWeighting(scipy.sparse.diags([[c] * n], [0]).tocsr(),
+                                         impl='numpy'), 2.0, dm([c] * n)),
+            ('spmatrix', MatrixWeighting(scipy.sparse.csr_matrix(np.array(nd)), impl='numpy'),
+             2.0, ndm),
+            ('custom', nt.NumpyTensorSpaceCustomInner(f1), 2.0, 'f1'),
+            ('custom', nt.NumpyTensorSpaceCustomInner(f1), 2.0, 'f1'),
+            ('custom', nt.NumpyTensorSpaceCustomInner(f2), 2.0, 'f2'),
+            ('custom', nt.NumpyTensorSpaceCustomNorm(f1), 1.0, 'n-f1'),
+            ('custom', nt.NumpyTensorSpaceCustomDist(f1), 1.0, 'd-f1')]
+    pairs('tensor', objs)
+    m = rng.randint(2, 4)
+    parr = wl(m)
+    if all(t == parr[0] for t in parr):
+        parr[0] = parr[0] * 2
+    pobjs = [('const', psp.ProductSpaceConstWeighting(c), 2.0, dm([c] * m)),
+             ('const', psp.ProductSpaceConstWeighting(c), 2.0, dm([c] * m)),
+             ('const', psp.ProductSpaceConstWeighting(c, exponent=p2), p2, dm([c] * m)),
+             ('array', psp.ProductSpaceArrayWeighting(np.full(m, c)), 2.0, dm([c] * m)),
+             ('array', psp.ProductSpaceArrayWeighting(np.array(parr)), 2.0, dm(parr)),
+             ('array', psp.ProductSpaceArrayWeighting(np.array(parr)), 2.0, dm(parr)),
+             ('array', psp.ProductSpaceArrayWeighting(np.array(parr), exponent=p2), p2, dm(parr)),
+             ('custom', psp.ProductSpaceCustomInner(f1), 2.0, 'f1'),
+             ('custom', psp.ProductSpaceCustomInner(f2), 2.0, 'f2'),
+             ('custom', psp.ProductSpaceCustomNorm(f1), 1.0, 'n-f1'),
+             ('custom', psp.ProductSpaceCustomDist(f1), 1.0, 'd-f1')]
+    pairs('pspace', pobjs)
+
+    # ---- 3. MatrixWeighting
+    M = np.array(nd)
+    r = outcome(lambda: bool(MatrixWeighting(M, impl='numpy').is_valid()))
+    if r != ('ok', True):
+        bad('matrix is_valid :: positive definite matrix', r)
+    ctx.hit('weightobj/matrix/is_valid/pd')
+    ind = np.array(nd)
+    ind[0, 0] = -1.0
+    r = outcome(lambda: bool(MatrixWeighting(ind, impl='numpy').is_valid()))
+    if r != ('ok', False):
+        bad('matrix is_valid :: indefinite matrix', r)
+    ctx.hit('weightobj/matrix/is_valid/indefinite')
+    nh = np.array(nd)
+    nh[0, n - 1] += 0.25     # lower triangle still positive definite, not Hermitian
+    r = outcome(lambda: bool(MatrixWeighting(nh, impl='numpy').is_valid()))
+    if r != ('ok', False):
+        bad('matrix is_valid :: non-Hermitian matrix', r)
+    ctx.hit('weightobj/matrix/is_valid/nonhermitian')
+    for cached in (False, True):
+        mw = MatrixWeighting(M, impl='numpy', cache_mat_decomp=cached)
+        r = outcome(lambda: mw.matrix_decomp())
+        ok = r[0] == 'ok'
+        if ok:
+            ev, V = r[1]
+            ok = np.allclose((V * ev).dot(V.conj().T), M, rtol=1e-12, atol=1e-12) and \
+                np.allclose(V.dot(V.conj().T), np.eye(n), rtol=1e-12, atol=1e-12)
+        if not ok:
+            bad('matrix decomp :: V diag(e) V^H != M', r)
+        ctx.hit('weightobj/matrix/decomp' + ('/cached' if cached else ''))
+        if cached:
+            r = outcome(lambda: (bool(mw.is_valid()), mw.matrix_decomp()[0] is mw._eigval))
+            if r != ('ok', (True, True)):
+                bad('matrix is_valid :: from cached eigenvalues', r)
+            indw = MatrixWeighting(ind, impl='numpy', cache_mat_decomp=True)
+            r = outcome(lambda: (indw.matrix_decomp(), bool(indw.is_valid()))[1])
+            if r != ('ok', False):
+                bad('matrix is_valid :: indefinite, from cached eigenvalues', r)
+            ctx.hit('weightobj/matrix/is_valid/cached-eigval')
+    for cdec in (False, True):
+        pe = rng.choice([3.0, 1.5])
+        r = outcome(lambda: MatrixWeighting(M, impl='numpy', exponent=pe, precomp_mat_pow=True,
+                                            cache_mat_decomp=cdec)._mat_pow)
+        ok = r[0] == 'ok' and r[1] is not None
+        if ok:
+            ev, V = np.linalg.eigh(M)
+            want = (V * ev ** (1.0 / pe)).dot(V.T)
+            ok = np.allclose(r[1], want, rtol=1e-10, atol=1e-12)
+        if not ok:
+            bad('matrix power :: W ** (1/p) cache_mat_decomp={}'.format(cdec), r)
+        ctx.hit('weightobj/matrix/matpow/precomp' + ('-cached-decomp' if cdec else ''))
+    spw = MatrixWeighting(scipy.sparse.csr_matrix(M), impl='numpy')
+    r1, r2 = outcome(lambda: spw.is_valid()), outcome(lambda: spw.matrix_decomp())
+    if r1[0] != 'err:notimpl' or r2[0] != 'err:notimpl':
+        bad('matrix sparse :: is_valid / matrix_decomp must raise NotImplementedError', (r1, r2))
+    ctx.hit('weightobj/matrix/sparse/notimpl')
+    sp3 = odl.rn(n)
+    x3, y3 = sp3.element(dyl(n)), sp3.element(dyl(n))
+    mw = MatrixWeighting(M, impl='numpy')
+    rs = [outcome(lambda: mw.inner(x3, y3)), outcome(lambda: mw.norm(x3)),
+          outcome(lambda: mw.dist(x3, y3))]
+    if any(t[0] != 'err:notimpl' for t in rs):
+        bad('matrix inner/norm/dist :: abstract class must raise NotImplementedError', rs)
+    ctx.hit('weightobj/matrix/inner-norm-dist/notimpl')
+    for name, mk, exp in [
+            ('object', lambda: MatrixWeighting(np.array([[1, None], [None, 1]], dtype=object),
+                                               impl='numpy'), 'err:ValueError'),
+            ('ndim', lambda: MatrixWeighting(np.ones(3), impl='numpy'), 'err:ValueError'),
+            ('nonsquare', lambda: MatrixWeighting(np.ones((2, 3)), impl='numpy'),
+             'err:ValueError'),
+            ('sparse-exponent', lambda: MatrixWeighting(scipy.sparse.csr_matrix(M), impl='numpy',
+                                                        exponent=3.0), 'err:notimpl')]:
+        r = outcome(mk)
+        if r[0] != exp:
+            bad('matrix reject :: ' + name, r)
+        ctx.hit('weightobj/matrix/reject/' + name)
+
+    # ---- 4. ArrayWeighting.is_valid
+    r = outcome(lambda: (bool(nt.NumpyTensorSpaceArrayWeighting(np.array(arr)).is_valid()),
+                         bool(nt.NumpyTensorSpaceArrayWeighting(
+                             np.array([1.0, 0.0, 2.0])).is_valid()),
+                         bool(nt.NumpyTensorSpaceArrayWeighting(
+                             np.array([1.0, -1.0])).is_valid())))
+    if r != ('ok', (True, False, False)):
+        bad('array is_valid', r)
+    ctx.hit('weightobj/array/is_valid/positive')
+    ctx.hit('weightobj/array/is_valid/nonpositive')
+
+    # ---- 5. is_weighted: False exactly when inner is the plain sum
+    X, Y = dyl(n), dyl(n)
+    plain = sum(Fraction(u) * Fraction(v) for u, v in zip(X, Y))
+    for wt in (None, 1.0, 2.0, [1.0] * n, arr):
+        kw = {} if wt is None else {'weighting': wt}
+        r = outcome(lambda: (lambda s_: (bool(s_.is_weighted),
+                                         Fraction(float(s_.inner(s_.element(X),
+                                                                 s_.element(Y))))))(
+            odl.rn(n, **kw)))
+        if r[0] != 'ok' or (not r[1][0] and r[1][1] != plain) or \
+                (r[1][0] != (wt not in (None, 1.0))):
+            bad('is_weighted tensor :: weighting={}'.format(wt), r)
+    ctx.hit('weightobj/is_weighted/tensor')
+    for wt in (None, 1.0, 2.0, [1.0, 2.0]):
+        kw = {} if wt is None else {'weighting': wt}
+        r = outcome(lambda: bool(odl.ProductSpace(odl.rn(2), odl.rn(1), **kw).is_weighted))
+        if r != ('ok', wt not in (None, 1.0)):
+            bad('is_weighted pspace :: weighting={}'.format(wt), r)
+    ctx.hit('weightobj/is_weighted/pspace')
+
+    # ---- 6. spaces: equal construction => ==, equal hash, same inner/norm/dist; zero()
+    shared = np.asarray(arr)
+    mks = [('tensor', lambda: odl.rn(n, weighting=c)),
+           ('tensor', lambda: odl.rn(n, weighting=shared)),
+           ('tensor', lambda: odl.rn(n, weighting=c, exponent=p2)),
+           ('pspace', lambda: odl.ProductSpace(odl.rn(2), odl.rn(n), weighting=c, exponent=p2)),
+           ('pspace', lambda: odl.ProductSpace(odl.rn(2, weighting=c), 2)),
+           ('discr', lambda: odl.uniform_discr(0, 2, n, nodes_on_bdry=True)),
+           ('discr', lambda: odl.uniform_discr(0, 2, n, weighting=c, exponent=p2))]
+    for kind, mk in mks:
+        r = outcome(lambda: (mk(), mk()))
+        if r[0] != 'ok':
+            bad('space-eq-hash {} :: construction'.format(kind), r)
+            continue
+        s1, s2 = r[1]
+        r = outcome(lambda: (s1 == s2, hash(s1) == hash(s2), s1 != s2))
+        if r != ('ok', (True, True, False)):
+            bad('space-eq-hash {} :: equal construction'.format(kind), r)
+        r = outcome(lambda: (lambda a, b: (float(a.norm()), float(b.norm()),
+                                           float(a.dist(s1.zero())), float(s1.zero().norm()),
+                                           float(s2.zero().dist(s2.zero()))))(
+            s1.one() * 1.5, s2.one() * 1.5))
+        if r[0] != 'ok' or r[1][0] != r[1][1] or r[1][2] != r[1][0] or r[1][3] != 0.0 or \
+                r[1][4] != 0.0 or not r[1][0] > 0:
+            bad('space-eq-hash/zero {} :: norm on equal spaces, zero element'.format(kind), r)
+        if s1.exponent == 2.0:
+            r = outcome(lambda: (s1.inner(s1.one(), s1.zero()), s1.inner(s1.zero(), s1.one())))
+            if r != ('ok', (0.0, 0.0)):
+                bad('zero {} :: inner with zero'.format(kind), r)
+        ctx.hit('weightobj/space-eq-hash/' + kind)
+        ctx.hit('weightobj/zero/' + kind)
+
+    # ---- 7. partition: cell_sizes_vecs are the quadrature weights per axis
+    for rep in range(3):
+        nd_ = rng.choice([1, 2])
+        specs = []
+        for ax in range(nd_):
+            nn = rng.randint(1, 4)
+            l, r_ = rng.choice([(0, 0), (1, 1), (1, 0), (0, 1)])
+            a_, b_ = exact_extent(rng, nn, l, r_)
+            specs.append((a_, b_, nn, l, r_))
+        r = outcome(lambda: odl.uniform_discr([t[0] for t in specs], [t[1] for t in specs],
+                                              [t[2] for t in specs],
+                                              nodes_on_bdry=[(bool(t[3]), bool(t[4]))
+                                                             for t in specs]))
+        if r[0] != 'ok':
+            bad('partition :: construction', r)
+            continue
+        sp = r[1]
+        r = outcome(lambda: (sp.partition.cell_sizes_vecs, sp.partition.nodes_on_bdry,
+                             sp.partition.nodes_on_bdry_byaxis, float(sp.one().norm()) ** 2,
+                             float(sp.inner(sp.one(), sp.one()))))
+        if r[0] != 'ok':
+            bad('partition :: cell_sizes_vecs / nodes_on_bdry raise', r)
+            continue
+        csv, nob, nobax, n2, i11 = r[1]
+        vol = 1.0
+        for t in specs:
+            vol *= (t[1] - t[0])
+        tot = 1.0
+        for v in csv:
+            tot *= float(np.sum(v))
+        if not close(tot, vol, rel=1e-12) or not close(i11, vol, rel=1e-12) or \
+                not close(n2, vol, rel=1e-12):
+            bad('partition :: prod(sum(cell_sizes_vecs)) = volume = <1,1>', (tot, vol, i11, n2))
+        ctx.hit('weightobj/partition/cell_sizes_vecs')
+        wantax = tuple((bool(t[3]) or t[2] == 1 and False, bool(t[4])) for t in specs)
+        ok = True
+        for t, got in zip(specs, nobax):
+            if t[2] > 1 and (bool(got[0]), bool(got[1])) != (bool(t[3]), bool(t[4])):
+                ok = False
+        if not ok:
+            bad('partition :: nodes_on_bdry_byaxis', (specs, nobax, wantax))
+        ctx.hit('weightobj/partition/nodes_on_bdry')
+    ctx.case(('weightobj', n, m), {'weightobj': {'seed': wseed}})
+    return problems
+
+
+# ---------------------------------------------------------------------------
+# DERIVED stream (round 5): spaces obtained from other spaces / alternative constructors, sent
+# through the FULL oracle and model comparison of run_case with the derived space injected:
+# ProductSpace indexing (constant weighting), astype / real_space / complex_space (weighting
+# object passed on), byaxis of constant-weighted tensor spaces, tangent_bundle,
+# uniform_discr_fromdiscr, uniform_partition / uniform_partition_fromgrid argument forms.
+# (What indexing / byaxis should do with ARRAY weightings belongs to C20: known findings there.)
+
+DERIVED_STRATA = ['derived/' + t for t in (
+    'pspace-getitem/slice', 'pspace-getitem/list', 'pspace-getitem/tuple', 'pspace-astype',
+    'pspace-complex_space', 'pspace-real_space', 'tensor-byaxis', 'discr-tangent_bundle',
+    'discr-fromdiscr/minmax', 'discr-fromdiscr/shape', 'discr-fromdiscr/cell_sides',
+    'partition/min-cellsides-shape', 'partition/max-cellsides-shape',
+    'partition/min-max-cellsides', 'partition/fromgrid-dict', 'discr-astype')]
+
+
+def derived_cases(rng):
+    import odl
+    out = []
+
+    def leafT(n, dt='float64', wt=None, p=2):
+        return ('T', (n,), dt, 'C', wt, p)
+    for p in (2, 1, INF, 1.5):
+        c = rng.choice([0.5, 2.0, 4.0])
+        comps = [leafT(rng.randint(1, 3), p=p) for _ in range(4)]
+        base = ('P', comps, ('c', c), p)
+        out.append(('pspace-getitem/slice', base, lambda s_: s_[1:3],
+                    ('P', comps[1:3], ('c', c), p)))
+        out.append(('pspace-getitem/list', base, lambda s_: s_[[3, 0, 3]],
+                    ('P', [comps[3], comps[0], comps[3]], ('c', c), p)))
+        out.append(('pspace-getitem/tuple', base, lambda s_: s_[0:2, ],
+                    ('P', comps[0:2], ('c', c), p)))
+    for wt in (('c', 2.0), ('a', [0.5, 2.0, 3.0]), None):
+        p = rng.choice([2, 2, 1, 1.5])
+        comps = [leafT(rng.randint(1, 3), p=p) for _ in range(3)]
+        base = ('P', comps, wt, p)
+
+        def cast(dt):
+            return ('P', [(c_[0], c_[1], dt) + c_[3:] for c_ in comps], wt, p)
+        out.append(('pspace-astype', base, lambda s_: s_.astype('float32'), cast('float32')))
+        out.append(('pspace-complex_space', base, lambda s_: s_.complex_space,
+                    cast('complex128')))
+        out.append(('pspace-real_space', cast('complex128'), lambda s_: s_.real_space, base))
+    for p in (2, 1, INF, 1.5):
+        c = rng.choice([0.5, 2.0])
+        shp = (rng.randint(2, 3), rng.randint(2, 4))
+        base = ('T', shp, 'float64', 'C', ('c', c), p)
+        out.append(('tensor-byaxis', base, lambda s_: s_.byaxis[[1, 0]],
+                    ('T', (shp[1], shp[0]), 'float64', 'C', ('c', c), p)))
+        out.append(('tensor-byaxis', base, lambda s_: s_.byaxis[1],
+                    ('T', (shp[1],), 'float64', 'C', ('c', c), p)))
+    for rep in range(2):
+        nd = rng.choice([1, 2])
+        specs = []
+        for ax in range(nd):
+            n = rng.randint(2, 4)
+            l, r = rng.choice([(0, 0), (1, 1), (1, 0)])
+            a, b = exact_extent(rng, n, l, r)
+            specs.append((a, b, n, l, r))
+        base = ('U', specs, 'float64', 'C', None, 2)
+        out.append(('discr-tangent_bundle', base, lambda s_: s_.tangent_bundle,
+                    ('P', [base] * nd, None, 2)))
+        out.append(('discr-astype', base, lambda s_: s_.astype('complex128'),
+                    ('U', specs, 'complex128', 'C', None, 2)))
+        nob = [(bool(t[3]), bool(t[4])) for t in specs]
+        new = [(t[0] - 1.0, t[1] + 2.0, t[2], t[3], t[4]) for t in specs]
+        out.append(('discr-fromdiscr/minmax', base,
+                    lambda s_, new=new, nob=nob: odl.uniform_discr_fromdiscr(
+                        s_, min_pt=[t[0] for t in new], max_pt=[t[1] for t in new],
+                        nodes_on_bdry=nob),
+                    ('U', new, 'float64', 'C', None, 2)))
+        new2 = [(t[0], t[1], t[2] + 2, t[3], t[4]) for t in specs]
+        out.append(('discr-fromdiscr/shape', base,
+                    lambda s_, new2=new2, nob=nob: odl.uniform_discr_fromdiscr(
+                        s_, shape=[t[2] for t in new2], nodes_on_bdry=nob),
+                    ('U', new2, 'float64', 'C', None, 2)))
+        # cell_sides given (nodes not on the boundary): max_pt = min_pt + shape * cell_sides
+        # (template: cells of side 1/2; min_pt / max_pt are kept, the shape doubles)
+        a0s = [float(rng.randint(-2, 2)) for _ in specs]
+        base0 = ('U', [(a0, a0 + t[2] * 0.5, t[2], 0, 0) for a0, t in zip(a0s, specs)],
+                 'float64', 'C', None, 2)
+        new3 = [(a0, a0 + t[2] * 0.5, 2 * t[2], 0, 0) for a0, t in zip(a0s, specs)]
+        out.append(('discr-fromdiscr/cell_sides', base0,
+                    lambda s_, k=len(specs): odl.uniform_discr_fromdiscr(
+                        s_, cell_sides=[0.25] * k),
+                    ('U', new3, 'float64', 'C', None, 2)))
+        # uniform_partition argument forms (no nodes on the boundary)
+        mins = [float(rng.randint(-2, 2)) for _ in range(nd)]
+        hs = [rng.choice([0.5, 0.25, 1.0]) for _ in range(nd)]
+        ns = [rng.randint(2, 4) for _ in range(nd)]
+        maxs = [a + h * n for a, h, n in zip(mins, hs, ns)]
+        d0 = ('U', [(a, b, n, 0, 0) for a, b, n in zip(mins, maxs, ns)], 'float64', 'C', None, 2)
+        out.append(('partition/min-cellsides-shape', None,
+                    lambda _, mins=mins, hs=hs, ns=ns: odl.uniform_discr_frompartition(
+                        odl.uniform_partition(min_pt=mins, cell_sides=hs, shape=ns)), d0))
+        out.append(('partition/max-cellsides-shape', None,
+                    lambda _, maxs=maxs, hs=hs, ns=ns: odl.uniform_discr_frompartition(
+                        odl.uniform_partition(max_pt=maxs, cell_sides=hs, shape=ns)), d0))
+        out.append(('partition/min-max-cellsides', None,
+                    lambda _, mins=mins, maxs=maxs, hs=hs: odl.uniform_discr_frompartition(
+                        odl.uniform_partition(min_pt=mins, max_pt=maxs, cell_sides=hs)), d0))
+        # uniform_partition_fromgrid with dicts: one side given, the other half a cell out
+        gmin = [a + h / 2 for a, h in zip(mins, hs)]
+        gmax = [b - h / 2 for b, h in zip(maxs, hs)]
+        lo = mins[0] - 0.5
+        coords = [[gmin[i] + hs[i] * k for k in range(ns[i])] for i in range(nd)]
+        dg = ('G', coords, [lo] + mins[1:], maxs, 'float64', None, 2)
+        out.append(('partition/fromgrid-dict', None,
+                    lambda _, gmin=gmin, gmax=gmax, ns=ns, lo=lo: odl.uniform_discr_frompartition(
+                        odl.uniform_partition_fromgrid(odl.uniform_grid(gmin, gmax, ns),
+                                                       min_pt={0: lo}, max_pt={})), dg))
+    return out
+
+
+def run_derived(ctx, lines, recs, collect=True, only=None, dseed=None):
+    if dseed is None:
+        dseed = ctx.rng.getrandbits(32)
+    rng = random.Random(dseed)
+    allp = []
+    for i, (name, base, derive, dd) in enumerate(derived_cases(rng)):
+        vseed = rng.getrandbits(32)
+        if only is not None and only != i:
+            continue
+        rep = {'derived': {'name': name, 'dseed': dseed, 'index': i}}
+        o = outcome(lambda: derive(build(base) if base is not None else None))
+        if o[0] != 'ok':
+            ctx.violation('derived {} :: construction'.format(name), str(o)[:300], rep)
+            allp.append((name, o))
+            continue
+        sp = o[1]
+        # the derived space must BE the space its description says (exponent, weighting kind)
+        chk = outcome(lambda: (lambda want: (float(sp.exponent) == float(want.exponent),
+                                             type(sp.weighting) is type(want.weighting),
+                                             bool(sp.weighting.equiv(want.weighting)),
+                                             sp.shape == want.shape))(build(dd)))
+        if chk != ('ok', (True, True, True, True)):
+            ctx.violation('derived {} :: weighting/exponent/shape of the derived space'.format(name),
+                          '{} got {!r}'.format(chk, sp)[:400], rep)
+            allp.append((name, chk))
+            continue
+        pr = run_case(ctx, dd, vseed, lines, recs, collect=collect, space=sp,
+                      hist={'scenario': 'derived/' + name, 'seed': 0, 'derived': rep['derived']})
+        allp.extend(pr or [])
+        ctx.hit('derived/' + name)
+    return allp
+
+
+# ---------------------------------------------------------------------------
 # HISTORY stream: spaces built from SHARED objects (one grid under several partitions, one
 # partition under several spaces, one weighting object under several spaces), queried
 # interleaved.  Every answer goes through the same oracle and model comparison as a freshly
@@ -2551,7 +3054,7 @@ def EXPECTED_BRANCHES(ctx):
         out.append('validation/reject/' + name)
         if has_neighbour:
             out.append('validation/accept/' + name)
-    return out + mag_strata() + CUSTOM_STRATA
+    return out + mag_strata() + CUSTOM_STRATA + WEIGHTOBJ_STRATA + DERIVED_STRATA
 
 
 # ---------------------------------------------------------------------------
@@ -2580,6 +3083,8 @@ def run(ctx):
     run_validation(ctx, lines, recs)
     run_magnitude(ctx)
     custom_cases(ctx)
+    run_derived(ctx, lines, recs)
+    run_weightobj(ctx)
     outs = core.run_driver('C02', lines)
     compare(ctx, recs, outs)
     run_custom(ctx)
@@ -2595,6 +3100,9 @@ def search(ctx, broken):
         run_magnitude(ctx)
         for c in custom_zoo(ctx):
             run_custom_case(ctx, c, [], [], collect=False)
+        for rep in range(3):
+            run_weightobj(ctx)
+            run_derived(ctx, [], [], collect=False)
         for case in large_cases(ctx):
             run_large(ctx, case)
         for rep in range(4):
@@ -2609,6 +3117,19 @@ def search(ctx, broken):
 
 
 def replay(ctx, case):
+    if 'weightobj' in case:
+        before = len(ctx.violations)
+        pr = run_weightobj(ctx, wseed=case['weightobj']['seed'])
+        del ctx.violations[before:]
+        pr = [q for q in pr if q[0] == case['weightobj'].get('key', q[0])]
+        return '; '.join('{}: {}'.format(*q) for q in pr[:3])[:600] if pr else None
+    dv = case.get('derived') or (case.get('hist') or {}).get('derived')
+    if dv:
+        before = len(ctx.violations)
+        run_derived(ctx, [], [], collect=False, only=dv.get('index'), dseed=dv.get('dseed'))
+        new = [v for v in ctx.violations[before:]]
+        del ctx.violations[before:]
+        return '; '.join(v['key'] + ': ' + v['what'] for v in new[:3])[:600] if new else None
     if 'cstream' in case:
         before = len(ctx.violations)
         pr = run_custom_case(ctx, case['cstream'], [], [], collect=False)
